@@ -603,6 +603,15 @@ func (e *Engine) instr(fc *fnCtx, st *state, in ssa.Instruction, sum *summary, e
 				for _, t := range e.escapes(st, fc.val(r), r.Type(), 0, map[int]bool{}) {
 					e.escapeDiag(fc, in, t, "returned to the caller")
 				}
+				// closures handed to the caller run later, outside any critical section
+				for t := range fc.val(r) {
+					if t.K == tFunc && t.N < len(e.closures) {
+						ci := e.closures[t.N]
+						if len(ci.fn.Blocks) > 0 {
+							e.spawn(fc, in, target{fn: ci.fn, free: ci.bindings, args: e.defaultArgs(ci.fn)}, "returned")
+						}
+					}
+				}
 			}
 		}
 		// publications of this call's own allocations matter to the caller only when
